@@ -113,7 +113,9 @@ def hostile_path(rng):
 
 
 def hostile_sig(rng):
-    k = rng.randrange(5)
+    k = rng.randrange(6)
+    if k == 5:
+        return multibyte_hexlike(rng, rng.choice([130, 132, 131]))
     if k == 0:
         r, s = rng.choice([0, 1, N - 1, N, N + 1, 2**256 - 1]), rng.choice([0, 1, N - 1, N, N + 1, 2**256 - 1, secp.HALF_N + 1])
         return rng.choice(["0x", ""]) + "%064x%064x%02x" % (r, s, rng.choice([0, 1, 26, 27, 28, 29, 35, 36, 255]))
@@ -130,8 +132,32 @@ def _num_token(rng):
                        '"%s"' % ("9" * rng.choice([77, 78, 79, 200])), "-0", "-0.0", '""', '"0x"', "null", "true", "[]", "{}", '"0b1"', '"0o7"', '"+1"'])
 
 
+def multibyte_hexlike(rng, nbytes):
+    """A string of exactly nbytes UTF-8 bytes that looks like prefixed hex but has a multi-byte character straddling one of the first
+    offsets (where parsers strip or split the prefix) or sitting in the digits."""
+    ch = rng.choice(["\u00e9", "\u20ac", "\U0001f600", "\u0301"])
+    w = len(ch.encode())
+    pos = rng.choice([0, 1, 2, 3, nbytes - w, rng.randrange(0, max(1, nbytes - w))])
+    pos = min(pos, nbytes - w)
+    base = ("0x" + "0" * nbytes)[:nbytes]
+    return base[:pos] + ch + base[pos + w:]
+
+
 def hostile_tx(rng):
-    k = rng.randrange(6)
+    k = rng.randrange(7)
+    if k == 6:
+        tx = txgen.rand_tx(rng, rng.choice([txgen.T2930, txgen.T1559]))
+        toks = txgen.tokens_for(rng, tx)
+        f = rng.choice(["key", "addr", "to", "data"])
+        if f == "key":
+            toks["accessList"] = '[["0x%s",[%s]]]' % ("11" * 20, json.dumps(multibyte_hexlike(rng, 66), ensure_ascii=False))
+        elif f == "addr":
+            toks["accessList"] = '[[%s,[]]]' % json.dumps(multibyte_hexlike(rng, 42), ensure_ascii=False)
+        elif f == "to":
+            toks["to"] = json.dumps(multibyte_hexlike(rng, 42), ensure_ascii=False)
+        else:
+            toks["data"] = json.dumps(multibyte_hexlike(rng, rng.choice([2, 3, 4, 10, 66])), ensure_ascii=False)
+        return txgen.render(rng, toks)
     if k <= 1:
         tx = txgen.rand_tx(rng)
         toks = txgen.tokens_for(rng, tx)
